@@ -62,6 +62,10 @@ type Sched struct {
 	Overrun  bool
 	pick     func(runnable []int, last int) int
 	spawn    func(body func())
+	// alone: exactly one worker is alive (set by the scheduler before it hands out the baton, cleared by
+	// Spawn): an optional switch point has nothing to switch to and is skipped. Decided by the
+	// scheduler's own state only, hence as deterministic as everything else here.
+	alone bool
 }
 
 // the worker currently holding the baton, and the active scheduler.
@@ -114,6 +118,7 @@ func New(pick func(runnable []int, last int) int) *Sched {
 func (s *Sched) Add(fn func()) *Worker {
 	w := &Worker{ID: len(s.Workers), Fn: fn}
 	w.rfd, w.wfd = mkpipe()
+	s.alone = false
 	s.Workers = append(s.Workers, w)
 	return w
 }
@@ -193,6 +198,9 @@ func Yield(site string) {
 		return
 	}
 	if s.Level < 16 && fnv(site)%16 >= s.Level {
+		return
+	}
+	if s.alone {
 		return
 	}
 	handoff(stYield, site)
@@ -320,6 +328,7 @@ func (s *Sched) Run(spawn func(body func())) {
 		if alive == 0 {
 			break
 		}
+		s.alone = alive == 1
 		if len(runnable) == 0 {
 			s.Deadlock = true
 			break
